@@ -488,7 +488,35 @@ func filesMode(run *vlib.Run, id string, inputs []Input, acceptedAt []bool, chan
 		}
 		return string(b)
 	}
-	err1 := fmtcmd.Run(quietLog, nil, io.Discard, fmtcmd.Arguments{Files: []string{dir}, WorkerCount: runtime.NumCPU()})
+	self, err := os.Executable()
+	if err != nil {
+		vlib.Fatal("%v", err)
+	}
+	// runs the command in a subprocess; returns its error (nil, or the command's own error) and whether it crashed
+	fmtDir := func(mode string) (cmdErr error, crashed bool) {
+		c := exec.Command(self, "fmtdir", mode, dir)
+		var out, stderr bytes.Buffer
+		c.Stdout, c.Stderr = &out, &stderr
+		err := c.Run()
+		if err == nil {
+			return nil, false
+		}
+		if ee, ok := err.(*exec.ExitError); ok && ee.ExitCode() == 3 {
+			return fmt.Errorf("%s", strings.TrimPrefix(strings.TrimSpace(out.String()), "FMT-ERROR ")), false
+		}
+		tail := stderr.String()
+		if i := strings.Index(tail, "panic:"); i >= 0 {
+			tail = tail[i:]
+		} else if i := strings.Index(tail, "fatal error:"); i >= 0 {
+			tail = tail[i:]
+		}
+		run.Violation("fmt-command-crashed", fmt.Sprintf("`templ fmt %s<dir>` over %d accepted templates crashed (%v): %s", map[string]string{"fail": "-fail ", "plain": ""}[mode], n, err, firstLines(tail, 14)), map[string]any{"stderr": firstLines(tail, 60)})
+		return err, true
+	}
+	err1, crashed := fmtDir("plain")
+	if crashed {
+		return
+	}
 	if err1 != nil {
 		run.Violation("fmt-command-error", fmt.Sprintf("`templ fmt <dir>` over %d accepted templates failed: %v", n, firstLine(err1.Error())), map[string]any{"error": err1.Error()})
 		return
@@ -500,7 +528,10 @@ func filesMode(run *vlib.Run, id string, inputs []Input, acceptedAt []bool, chan
 			first[i] = read(i)
 		}
 	}
-	err2 := fmtcmd.Run(quietLog, nil, io.Discard, fmtcmd.Arguments{Files: []string{dir}, WorkerCount: runtime.NumCPU(), FailIfChanged: true})
+	err2, crashed := fmtDir("fail")
+	if crashed {
+		return
+	}
 	var wg sync.WaitGroup
 	sem := make(chan struct{}, runtime.NumCPU())
 	secondChanged := atomic.Int64{}
@@ -549,6 +580,14 @@ func filesMode(run *vlib.Run, id string, inputs []Input, acceptedAt []bool, chan
 	}
 	run.Cov["files_formatted_in_place_by_templ_fmt"] = n
 	run.Cov["files_where_the_command_result_differs_from_the_library_call"] = differs
+}
+
+func firstLines(s string, n int) string {
+	l := strings.Split(s, "\n")
+	if len(l) > n {
+		l = l[:n]
+	}
+	return strings.Join(l, "\n")
 }
 
 func firstLine(s string) string {
@@ -675,6 +714,16 @@ func Run(id string) {
 	for i, a := range os.Args {
 		if a == "orderpass" && i+2 < len(os.Args) {
 			orderPass(os.Args[i+1], os.Args[i+2])
+			return
+		}
+		if a == "fmtdir" && i+2 < len(os.Args) {
+			// `templ fmt [-fail] <dir>` in a process of its own: a panic in one of its worker goroutines is then an
+			// observed outcome of the command, not the end of the check
+			err := fmtcmd.Run(quietLog, nil, io.Discard, fmtcmd.Arguments{Files: []string{os.Args[i+2]}, WorkerCount: runtime.NumCPU(), FailIfChanged: os.Args[i+1] == "fail"})
+			if err != nil {
+				fmt.Println("FMT-ERROR " + firstLine(err.Error()))
+				os.Exit(3)
+			}
 			return
 		}
 	}
